@@ -218,6 +218,8 @@ OPS = {
         op("remove-chain-start-check", "fire", [(S, "        elif chain_start:\n            err_msg = \"SMILES chain begins with non-atom\"\n            raise SMILESParserError(smiles, err_msg, tok.start_idx)\n\n", "")], ["EST", "X-none-deref"]),
     ],
     "C10": [
+        op("bonds-walked-in-written-order", "fire", [(E, "        out_bonds = sorted(mol.get_out_dirbonds(curr),\n                           key=lambda b: not b.ring_bond)", "        out_bonds = mol.get_out_dirbonds(curr)")], ["L8"]),
+        op("ring-bonds-sorted-last", "fire", [(E, "                           key=lambda b: not b.ring_bond)", "                           key=lambda b: b.ring_bond)")], ["L8"]),
         op("isotope-0-not-printed", "fire", [(S, "        if atom.isotope is not None:\n            builder.append(str(atom.isotope))", "        if atom.isotope:\n            builder.append(str(atom.isotope))")], ["L7"]),
         op("symbol-isotope-0-read-as-absent", "fire", [(G, "    isotope = None if (isotope == \"\") else int(isotope)", "    isotope = (int(isotope) or None) if isotope else None")], ["L6", "L5"]),
         op("lowercase-h-count", "fire", [(S, '            builder.append("H")\n            builder.append(str(atom.h_count))', '            builder.append("h")\n            builder.append(str(atom.h_count))')], ["L3"]),
@@ -295,7 +297,7 @@ OPS = {
         op("encoder-branch-offset-constant-instead-of-shift", "fire", [(E, "                    attribution_index + len(derived))", "                    attribution_index + len(derived) + 2)"),
                                                                           (E, "                for j in range(start, end):\n                    attribution_maps[j].index += len(Q_as_symbols) + 1\n", "")], ["TE6"]),
         op("encoder-recursive-call-drops-own-offset", "fire", [(E, "                    mol, bond, bond.dst, attribution_maps,\n                    attribution_index + len(derived))", "                    mol, bond, bond.dst, attribution_maps, len(derived))")], ["TE6"]),
-        op("encoder-shift-start-hoisted", "fire", [(E, "        out_bonds = mol.get_out_dirbonds(curr)\n        for i, bond in enumerate(out_bonds):", "        start = len(attribution_maps)\n        out_bonds = mol.get_out_dirbonds(curr)\n        for i, bond in enumerate(out_bonds):"),
+        op("encoder-shift-start-hoisted", "fire", [(E, "                           key=lambda b: not b.ring_bond)\n        for i, bond in enumerate(out_bonds):", "                           key=lambda b: not b.ring_bond)\n        start = len(attribution_maps)\n        for i, bond in enumerate(out_bonds):"),
                                                       (E, "                start = len(attribution_maps)\n                branch = _fragment_to_selfies(", "                branch = _fragment_to_selfies(")], ["TE6"]),
         op("encoder-shift-end-measured-before-call", "fire", [(E, "                start = len(attribution_maps)\n                branch = _fragment_to_selfies(", "                start = len(attribution_maps)\n                end = len(attribution_maps)\n                branch = _fragment_to_selfies("),
                                                                  (E, "                end = len(attribution_maps)\n\n                derived.append(branch_symbol)", "\n                derived.append(branch_symbol)")], ["TE6"]),
